@@ -51,6 +51,19 @@ class SimCallback(object):
         self.clone_of = clone_of
         self.armed = {}
         self.owner = None     # the object this callback was registered on (None for library-made clones)
+        # value equality, as a dataclass-style handler has it: two callbacks are == iff their labels
+        # are; a label is unique unless the simulated caller makes a twin on purpose (op cb_replace)
+        self.label = cid
+        self.retired = False  # taken out of its object's list by the caller: owed no notification
+
+    def __eq__(self, other):
+        return isinstance(other, SimCallback) and other.label == self.label
+
+    def __ne__(self, other):
+        return not self.__eq__(other)
+
+    def __hash__(self):
+        return hash(('SimCallback', self.label))
 
     def __deepcopy__(self, memo):
         w = _CUR[0]
@@ -209,7 +222,10 @@ class World(object):
         self.pending_owner = []
         self.shadowing = any(getattr(o, 'wants_shadow', False) for o in self.oracles)
         # the aliasing oracle cannot know whether a failed write already swapped the buffer
-        self.strict_abandon = any(getattr(o, 'prop', None) == 'C20' for o in self.oracles) or not self.oracles
+        # (as built, session 3: no longer - whether a failed write swapped the buffer is OBSERVED, and an
+        #  indexed store never replaces it; the destination of a failed value write stays in play in every
+        #  profile, so that what later writes through its views do is still judged)
+        self.strict_abandon = False
         # route agreement (C10) is about the stored value - codes and n_frac - whatever else is stale:
         # there the destination of a resize aborted BEFORE its store (new sizes over old codes, the
         # state the pinned code leaves) stays in play as a source and destination of later conversions
@@ -399,6 +415,8 @@ class World(object):
         k = self.slot_of(obj)
         if st is not None:
             st.cb_events.append((cb.cid, site, k))
+            if cb.retired and 'retired_cb' not in st.extra:
+                st.extra['retired_cb'] = (cb.cid, site, k)
             if cb.owner is not None and cb.owner is not obj and 'foreign_cb' not in st.extra:
                 st.extra['foreign_cb'] = (cb.cid, site, k, self.slot_any(cb.owner))
         self.bump('cb_' + site)
@@ -1114,6 +1132,8 @@ class World(object):
             av = self.exact_of_slot(a, readback=True)
             if b is not None:
                 bv = self.exact_of_slot(b, readback=True) if not bo.scaled else None
+            elif bd['val'][0] == 'x':
+                bv = None         # (fault F2: a constant the library cannot convert - the operation is rejected)
             else:
                 bv = V.exact(bd['val'])
             const_inexact = False
@@ -1188,7 +1208,9 @@ class World(object):
         if f == 'invert':
             x = ~ao
         else:
-            bv = self.obj(b) if b is not None else int(bd['int'])
+            bv = self.obj(b) if b is not None else int(bd['int']) if 'int' in bd else V.carrier(bd['val'])
+            if b is None and 'val' in bd:
+                self.bump('bitwise_typed_constant')
             refl = bool(op.get('reflected')) and b is None
             if f == 'and':
                 x = (bv & ao) if refl else (ao & bv)
@@ -1965,6 +1987,40 @@ class World(object):
         for c in cbs:
             c.owner = o
         o.callbacks.extend(cbs)
+
+    def op_cb_replace(self, st):
+        """The caller swaps registered callbacks for new ones: a new list or an in-place replacement,
+        the newcomers comparing EQUAL to the ones they replace (value-equality handlers) or not.  From
+        then on the newcomers are owed the notifications and the retired ones none."""
+        op = st.op
+        d = self.ref(op['slot'], lambda o: bool(o.callbacks))
+        st.kind = 'env'
+        st.pure = True
+        yield
+        o = self.obj(d)
+        before = list(o.callbacks)
+
+        def twin(c):
+            n = SimCallback(self.new_cid())
+            if op.get('equal', True):
+                n.label = c.label
+            n.owner = o
+            self.all_cbs.append(n)
+            return n
+        how = op.get('how', 'list')
+        if how == 'list':
+            o.callbacks = [twin(c) if isinstance(c, SimCallback) else c for c in before]
+        elif how == 'inplace':
+            k = op.get('k', 0) % len(before)
+            if isinstance(before[k], SimCallback):
+                o.callbacks[k] = twin(before[k])
+        else:       # 'slice': the same list object, new content
+            o.callbacks[:] = [twin(c) if isinstance(c, SimCallback) else c for c in before]
+        for c in before:
+            if isinstance(c, SimCallback) and not any(c is x for x in o.callbacks):
+                c.retired = True
+                c.armed = {}
+        self.bump('callbacks_replaced')
 
     def op_cb_arm(self, st):
         """Arm one callback of a slot: at its next firing on `site` it raises (F3) or runs the
